@@ -226,31 +226,41 @@ theorem env_precedence (proc global cert ident : Env) (k : Key) :
   cases lookup ident k <;> cases lookup cert k <;> cases lookup global k <;> cases lookup proc k <;>
     simp [orElse]
 
-/-- An account's file hooks: account ▸ daemon.  The `global` table is NOT consulted
-(`dispatch_global_env_vars` only visits certificates) … -/
-theorem env_precedence_account (proc account : Env) (k : Key) :
-    lookup (accountFileChildEnv .repaired proc account) k =
+/-- An account's file hooks (repaired `dispatch_global_env_vars`, commit 703ab3f): account ▸ global ▸
+daemon, for every key. -/
+theorem env_precedence_account (proc global account : Env) (k : Key) :
+    lookup (accountFileChildEnv .repaired .repaired proc global account) k =
+      expectedEnv proc global account [] k := by
+  simp only [accountFileChildEnv, accountEnvAfterDispatch, childEnv, fileEnv, lookup_append,
+    lookup_setEnv_repaired, lookup_dispatchGlobal, expectedEnv, lookup]
+  cases lookup account k <;> cases lookup global k <;> cases lookup proc k <;> simp [orElse]
+
+/-- Before that repair the `global` table was not consulted for accounts (only certificates were
+visited): account ▸ daemon … -/
+theorem env_precedence_account_old (proc global account : Env) (k : Key) :
+    lookup (accountFileChildEnv .repaired .old proc global account) k =
       orElse (lookup account k) (lookup proc k) := by
-  simp only [accountFileChildEnv, childEnv, fileEnv, lookup_append, lookup_setEnv_repaired, lookup]
+  simp only [accountFileChildEnv, accountEnvAfterDispatch, childEnv, fileEnv, lookup_append,
+    lookup_setEnv_repaired, lookup]
   cases lookup account k <;> cases lookup proc k <;> simp [orElse]
 
-/-- … so "account over global over the daemon's own" is false of the code: a variable set only in
-`[global] env` does not reach an account's file hooks. -/
-theorem env_precedence_account_full_is_false :
+/-- … so "account over global over the daemon's own" was false: a variable set only in
+`[global] env` did not reach an account's file hooks. -/
+theorem env_precedence_account_old_is_false :
     ¬ ∀ (proc global account : Env) (k : Key),
-      lookup (accountFileChildEnv .repaired proc account) k =
+      lookup (accountFileChildEnv .repaired .old proc global account) k =
         expectedEnv proc global account [] k := by
   intro h
   have := h [] [(['K'], ['g'])] [] ['K']
   revert this
   decide
 
-/-- It holds for every key the global table does not set. -/
-theorem env_precedence_account_partial (proc global account : Env) (k : Key)
+/-- It held for every key the global table does not set. -/
+theorem env_precedence_account_old_partial (proc global account : Env) (k : Key)
     (hk : lookup global k = none) :
-    lookup (accountFileChildEnv .repaired proc account) k =
+    lookup (accountFileChildEnv .repaired .old proc global account) k =
       expectedEnv proc global account [] k := by
-  rw [env_precedence_account]
+  rw [env_precedence_account_old]
   simp only [expectedEnv, hk, lookup, orElse_none_left]
 
 /-- Before the repair: a variable present both in the daemon's environment and in the certificate's
@@ -413,14 +423,32 @@ theorem model_satisfies_holds (hooks : List Hook) (ty : HookType) (ex : List Exi
         exact ih ex.tail (fun p hp => hobs p (List.mem_cons_of_mem _ hp))
 
 /-- The repaired model's child environments satisfy `Spec.C10.envHolds` for any keys of interest. -/
-theorem model_satisfies_envHolds (proc global cert ident : Env) (keys : List Key) :
-    envHolds proc global cert ident (challengeChildEnv .repaired proc global cert ident) keys = true ∧
-    envHolds proc global cert [] (postOpChildEnv .repaired proc global cert) keys = true ∧
-    envHolds proc global cert [] (certFileChildEnv .repaired proc global cert) keys = true := by
+theorem model_satisfies_envHolds (proc global owner ident : Env) (keys : List Key) :
+    envHolds proc global owner ident (challengeChildEnv .repaired proc global owner ident) keys = true ∧
+    envHolds proc global owner [] (postOpChildEnv .repaired proc global owner) keys = true ∧
+    envHolds proc global owner [] (certFileChildEnv .repaired proc global owner) keys = true ∧
+    envHolds proc global owner [] (accountFileChildEnv .repaired .repaired proc global owner) keys =
+      true := by
   simp only [envHolds, List.all_eq_true, beq_iff_eq]
-  exact ⟨fun k _ => (env_precedence proc global cert ident k).1,
-    fun k _ => (env_precedence proc global cert ident k).2.1,
-    fun k _ => (env_precedence proc global cert ident k).2.2⟩
+  exact ⟨fun k _ => (env_precedence proc global owner ident k).1,
+    fun k _ => (env_precedence proc global owner ident k).2.1,
+    fun k _ => (env_precedence proc global owner ident k).2.2,
+    fun k _ => env_precedence_account proc global owner k⟩
+
+/-- `expectedChildEnv` (what the harness compares observed child environments with) is exactly what
+the repaired model's child sees, for every kind and every list of keys. -/
+theorem model_matches_expectedChildEnv (kind : EnvKind) (proc global owner ident : Env)
+    (keys : List Key) :
+    expectedChildEnv kind proc global owner ident keys =
+      keys.map fun k => (k, lookup (modelChildEnv kind proc global owner ident) k) := by
+  unfold expectedChildEnv
+  apply List.map_congr_left
+  intro k _
+  cases kind
+  · simp only [modelChildEnv, (env_precedence proc global owner ident k).1]
+  · simp only [modelChildEnv, (env_precedence proc global owner ident k).2.1]
+  · simp only [modelChildEnv, (env_precedence proc global owner ident k).2.2]
+  · simp only [modelChildEnv, env_precedence_account proc global owner k]
 
 /-! ## Non-vacuity: concrete inputs -/
 
@@ -472,6 +500,12 @@ example : holds exHooks .postOperation
 
 example : splitHooks exHooks =
     ([hk "b" [.filePreCreate, .postOperation] true], exHooks) := by decide
+
+/-- `expectedChildEnv` on witness f and on the account witness. -/
+example : expectedChildEnv .challenge [(['K'], ['d'])] [] [(['K'], ['c'])] [] [['K'], ['L']] =
+    [(['K'], some ['c']), (['L'], none)] := by decide
+example : expectedChildEnv .accountFile [] [(['K'], ['g'])] [] [(['Z'], ['i'])] [['K'], ['Z']] =
+    [(['K'], some ['g']), (['Z'], none)] := by decide
 
 private def exChal (id : String) (postOk : Bool) : ChallengeIn :=
   { kind := .http01, identifier := id.toList, identifierTlsAlpn := [], fileName := "tok".toList,
